@@ -37,12 +37,14 @@ NEEDS_EXT = True
 TRUSTED = [
     "C18 simulated kernel (Lean Model/C18.lean §1 and the independent Python recorders): setpriority clamping, ioprio_check_cap of Linux 6.x (class = bits 13..15 masked with 7, level = bits 0..2, stored as unsigned short), sched_setaffinity = intersection with the cpuset / EINVAL when empty, do_prlimit order of checks; validated on every run against the live kernel (part b), not verified",
     "C18 native layer in part (a) is replaced by recorders: the C packing/unpacking and the cpu_set_t loop run only in part (b); glibc CPU_SET drops values outside 0..1023; CPython resource.prlimit turns EINVAL into ValueError and uses two's complement for rlim_t",
+    "C18 errno protocol: getpriority(2)/ioprio_get(2)/sched_getaffinity(2) write errno only on failure and return -1 then; PyArg_ParseTuple between `errno = 0` and the call does not touch errno; in the live run the harness leaves ENOENT in the thread's errno before every call (os.stat of a missing path) and tells the model errno = 2 — that nothing in between resets it is not verified (seeded C18-1 shows it reaches the C code in plain mode)",
+    "C18 oneshot block: the status file is cached when the harness's warm-up first reads it (num_threads), so the model is told the mask at block entry",
     "C18 /proc/<pid>/status: `Cpus_allowed_list` is the task's current mask printed as a range list (%*pbl); the harness renderer is checked against the live kernel on every run",
 ]
 MANIFEST = {
-    "level_text": "Machine-checked Lean 4 proofs over a four-layer model (simulated kernel, native layer with the translator's IOPRIO_CLASS_SHIFT, _pslinux.Process under wrap_exceptions, psutil.Process): ioprio pack/unpack round-trip for every class < 8 and data < 8192; one refinement theorem C18_refines (for EVERY kernel state, process and request, whenever the specification promises an outcome the model produces exactly that outcome and that kernel) with the named corollaries set-then-get for nice/ionice/cpu_affinity/rlimit on every valid value, other processes and other attributes unchanged, the listed invalid requests raise ValueError with an empty effect log, cpu_affinity([]) selects all eligible CPUs, duplicates and order are irrelevant, the get form is sorted and duplicate-free. Proved counterexamples for the unfixed front end (empty list after the mask was narrowed to a range) and for the known finding (only-ineligible CPU list answered with OSError). Tied to the code by translator facts (shift and macro shapes from C, level bounds, class set, enum members, pair length, PID-0 refusal, front-end rules) feeding the proof obligation cfg_good, by an exhaustive differential run against a simulated kernel over a fake procfs, and by a live run on spawned child processes through the freshly built extension.",
+    "level_text": "Machine-checked Lean 4 proofs over a four-layer model (simulated kernel, native layer with the translator's IOPRIO_CLASS_SHIFT, _pslinux.Process under wrap_exceptions, psutil.Process): ioprio pack/unpack round-trip for every class < 8 and data < 8192; one refinement theorem C18_refines (for EVERY kernel state, process and request, whenever the specification promises an outcome the model produces exactly that outcome and that kernel) with the named corollaries set-then-get for nice/ionice/cpu_affinity/rlimit on every valid value, other processes and other attributes unchanged, the listed invalid requests raise ValueError with an empty effect log, cpu_affinity([]) selects all eligible CPUs, duplicates and order are irrelevant, the get form is sorted and duplicate-free. The native getters take the C errno on entry as an input (translator facts: is errno cleared, which failure test): C18_nice_get_exact / C18_ionice_get_exact / C18_affinity_get_exact hold for every kernel value (nice -1 included) and every entry errno, C18_context_irrelevant carries every theorem over to calls made in any execution context (entry errno; status file cached by oneshot()), with proved counterexamples for the three broken errno protocols (C18_stale_errno_counterexample) and for the stale status file (C18_oneshot_stale_status_counterexample). C18_invalid_cpus_repaired: with the proposed EINVAL->ValueError fall-through (a translator fact) the only-unusable-CPU statement holds at full strength in every context. rlimit: RLIM_INFINITY conversion round trip, soft > hard and resource out of range give ValueError with the kernel unchanged. Proved counterexamples for the unfixed front end (empty list after the mask was narrowed to a range) and for the known finding (only-ineligible CPU list answered with OSError). Tied to the code by translator facts (shift and macro shapes from C, level bounds, class set, enum members, pair length, PID-0 refusal, front-end rules) feeding the proof obligation cfg_good, by an exhaustive differential run against a simulated kernel over a fake procfs, and by a live run on spawned child processes through the freshly built extension; every call of the correspondence is made in a call mode drawn at random (plain, fresh oneshot, warm oneshot, as_dict, process_iter object, process_iter(attrs).info, second call, whole history inside one warm oneshot block) and the modes are enumerated completely on a small sub-domain.",
     "level_note": "Trusted: Lean kernel + {propext, Classical.choice, Quot.sound}; translator; correspondence harness; the simulated kernel's rules (validated live on this kernel only; ioprio class masking is that of Linux >= 6.x); CPUs 0..ncpu-1 all online; privilege failures other than CAP_SYS_RESOURCE/nr_open are not modelled; PID reuse guard is C01's.",
-    "technique": "Lean 4 refinement proof by case analysis over requests + bit-arithmetic lemmas + translator-fed proof obligation + exhaustive differential correspondence (simulated kernel) + live differential run",
+    "technique": "Lean 4 refinement proof by case analysis over requests + bit-arithmetic lemmas + errno-protocol model of the native getters + translator-fed proof obligation + exhaustive differential correspondence (simulated kernel) in randomised call modes + live differential run with a poisoned errno",
     "design_ref": "DESIGN.md §5 C18",
 }
 ASSUMPTIONS = [
